@@ -29,7 +29,7 @@ SCOPE = c02.SCOPE
 AKID = c02.AKID
 
 CASES = ['authz-header', 'cred-in-header', 'sig-in-header', 'signedheaders-in-header', 'q-credential', 'q-signature', 'q-date', 'q-signedheaders',
-         'q-token', 'x-amz-date-twice', 'x-amz-date-vs-date', 'date-twice', 'token-header', 'both-carriers']
+         'q-token', 'fold-signature', 'fold-credential', 'x-amz-date-twice', 'x-amz-date-vs-date', 'date-twice', 'token-header', 'both-carriers']
 
 
 def shapes(tier, seed):
@@ -173,14 +173,51 @@ def run_shape(prog, shape, tier, seed, res):
                 a, b = first(tok, dt)
                 vals['X-Amz-Security-Token'] = [a, b]
                 expect_token = a
+            body_q = []
+            fold = case.startswith('fold-')
+            if case == 'fold-credential':
+                dc = decoy_like(ctx, conc_bytes(AKID), 'dc', 'alnum') + conc_bytes('/' + SCOPE)
+                a, b = first(cred, dc)
+                vals['X-Amz-Credential'] = [a]
+                body_q = [('X-Amz-Credential', b)]
+                expect_access = a[:len(AKID)]
+            if fold:
+                headers.append(('content-type', conc_bytes('application/x-www-form-urlencoded')))
             for n, vs in vals.items():
                 for v in vs:
                     pairs.append((conc_bytes(n), list(v)))
                     if wire_q:
                         wire_q.append(Int('u8', 0x26))
                     wire_q += conc_bytes(n + '=') + R.pct_encode(ctx, v)
+            body_wire = []
+            for n, v in body_q:
+                pairs.append((conc_bytes(n), list(v)))
+                body_wire += ([Int('u8', 0x26)] if body_wire else []) + conc_bytes(n + '=') + R.pct_encode(ctx, v)
             cq = R.ref_canon_query_from_pairs(ctx, pairs)
-            sig, creq, sts = ref_sign(m, key, ctx, 'GET', conc_bytes('/'), cq, headers, signed, [], conc_bytes(TS), conc_bytes(SCOPE))
+            sig, creq, sts = ref_sign(m, key, ctx, 'POST' if fold else 'GET', conc_bytes('/'), cq, headers, signed, [], conc_bytes(TS), conc_bytes(SCOPE))
+            if case == 'fold-signature':
+                # first (URL) occurrence is authenticated; the body carries the other one
+                dec = decoy_like(ctx, sig, 'ds', 'hex')
+                a, b = first(sig, dec)
+                wire_q += conc_bytes('&X-Amz-Signature=') + a
+                body_wire = conc_bytes('X-Amz-Signature=') + b
+            if fold:
+                if case != 'fold-signature':
+                    wire_q += conc_bytes('&X-Amz-Signature=') + sig
+                rq = Req('POST', b'/', wire_q, headers, body_wire, 'bytes')
+                other = sym_bytes(ctx, 'key2_', 32)
+                ctx.assume(z3.Not(zb(bytes_eq(other, key))))
+
+                def result_f(mm, rqv):
+                    rec = request_record(None, rqv)
+                    same = bytes_eq(rec['access_key'].elems, conc_bytes(AKID)) if len(rec['access_key'].elems) == len(AKID) else False
+                    if mm.ctx.branch(same):
+                        return ok(key_response(key))
+                    return ok(key_response(other))
+                prov = A.Provider(result_f)
+                r, polls = run(m, rq, 'us-east-1', 'service', prov, instant(T0), None, options(False, True))
+                assume_collision_free(m, ctx)
+                return rq, r, prov, expect_access, expect_token
             if case == 'q-signature':
                 dec = decoy_like(ctx, sig, 'ds', 'hex')
                 a, b = first(sig, dec)
@@ -266,6 +303,27 @@ def concrete_case(case, order, rnd):
     first = lambda a, b: (a, b) if want_ok else (b, a)
     last = lambda a, b: (b, a) if want_ok else (a, b)
     hl = lambda: [(n, bytes.fromhex(v)) for n, v in headers]
+    if case.startswith('fold-'):
+        import urllib.parse
+        headers.append(['content-type', b'application/x-www-form-urlencoded'.hex()])
+        vals = [('X-Amz-Algorithm', 'AWS4-HMAC-SHA256'), ('X-Amz-Credential', cred), ('X-Amz-Date', TS), ('X-Amz-SignedHeaders', 'host')]
+        body = ''
+        if case == 'fold-credential':
+            a, b = first(cred, 'ZZZZEXAMPLE/' + SCOPE)
+            vals[1] = ('X-Amz-Credential', a)
+            body = 'X-Amz-Credential=' + urllib.parse.quote(b, safe='-._~')
+        q = '&'.join('%s=%s' % (n, urllib.parse.quote(v, safe='-._~')) for n, v in vals)
+        _, cq = c02.py_canon('/', q + ('&' + body if body else ''))
+        sig, _, _ = py_sign(key, 'POST', b'/', cq, hl(), ['host'], b'', TS, SCOPE, is_key=True)
+        dsig = ('0' if sig[0] != '0' else '1') + sig[1:]
+        if case == 'fold-signature':
+            a, b = first(sig, dsig)
+            q += '&X-Amz-Signature=' + a
+            body = 'X-Amz-Signature=' + b
+        else:
+            q += '&X-Amz-Signature=' + sig
+        return {'method': 'POST', 'uri': '/?' + q, 'version': 'HTTP/1.1', 'headers': headers, 'body_hex': body.encode().hex(), 'body_kind': 'bytes',
+                'fold': True}
     if not case.startswith('q-'):
         dates = [['x-amz-date', TS]]
         if case == 'x-amz-date-twice':
@@ -331,13 +389,16 @@ def concrete_case(case, order, rnd):
 
 
 def native_outcome(rp, j):
-    nat = native_validate(rp, j, 'us-east-1', 'service', T0, provider={'result': {'signing_key_hex': '00' * 32}})
+    fold = bool(j.get('fold'))
+    j = {k: v for k, v in j.items() if k != 'fold'}
+    nat = native_validate(rp, j, 'us-east-1', 'service', T0, provider={'result': {'signing_key_hex': '00' * 32}},
+                          opts={'s3': False, 'url_encode_form': fold})
     res = nat.get('result', {})
     calls = nat.get('provider', {}).get('calls', [])
     return ('ok' if 'ok' in res else res.get('err', {}).get('kind', 'panic')), calls
 
 
-IDENTITY_CASES = {'cred-in-header': ('access_key', 'AKIDEXAMPLE', 'ZZZZEXAMPLE'), 'q-credential': ('access_key', 'AKIDEXAMPLE', 'ZZZZEXAMPLE'),
+IDENTITY_CASES = {'fold-credential': ('access_key', 'AKIDEXAMPLE', 'ZZZZEXAMPLE'), 'cred-in-header': ('access_key', 'AKIDEXAMPLE', 'ZZZZEXAMPLE'), 'q-credential': ('access_key', 'AKIDEXAMPLE', 'ZZZZEXAMPLE'),
                   'token-header': ('session_token', 'TOK', 'XYZ'), 'q-token': ('session_token', 'TOK', 'XYZ')}
 
 
@@ -359,6 +420,21 @@ def replay_finding(rp, f):
     return (nk == 'ok') != want_ok, {'native': nk, 'expected_ok': want_ok, 'provider_calls': calls}
 
 
+def mirse_concrete_fold(prog, j):
+    out = []
+
+    def body(m, ctx):
+        uri = j['uri']
+        path, sep, query = uri.partition('?')
+        rq = Req(j['method'], path.encode('latin-1'), query.encode('latin-1') if sep else None,
+                 [(n, bytes.fromhex(v)) for n, v in j['headers']], bytes.fromhex(j['body_hex']), 'bytes')
+        r, _ = run(m, rq, 'us-east-1', 'service', provider_ok(conc_bytes(bytes(32))), instant(T0), None, options(False, bool(j.get('fold'))))
+        o = outcome(r)
+        return 'ok' if o[0] == 'ok' else o[1]
+    engine.explore(prog, body, out.append)
+    return out[0].value if out[0].kind == 'ret' else 'panic'
+
+
 def conformance(prog, rp, seed, tier):
     mism = []
     n = 0
@@ -366,7 +442,7 @@ def conformance(prog, rp, seed, tier):
         n += 1
         j = concrete_case(case, order, random.Random(seed))
         nk, calls = native_outcome(rp, j)
-        mine = c02.mirse_concrete(prog, j, False)
+        mine = mirse_concrete_fold(prog, j)
         if mine != nk:
             mism.append({'case': case, 'order': order, 'mirse': mine, 'native': nk})
     return n, mism
@@ -378,7 +454,7 @@ def describe(f):
 
 def bounds(tier):
     return ('13 duplicated inputs (Authorization header; Credential / Signature / SignedHeaders inside it; X-Amz-Credential / -Signature / -Date / '
-            '-SignedHeaders / -Security-Token query parameters; X-Amz-Date twice; X-Amz-Date vs Date; Date twice; two token headers) in both '
+            '-SignedHeaders / -Security-Token query parameters; X-Amz-Signature / X-Amz-Credential in the URL and again in a folded form body; X-Amz-Date twice; X-Amz-Date vs Date; Date twice; two token headers) in both '
             'orders with a symbolic decoy of the same length (any hex string / any digits / any alphanumerics differing from the valid value), '
             'plus the two-carrier request; key 32 symbolic bytes')
 
